@@ -722,11 +722,14 @@ int main(int argc, char** argv)
         // ---- Part B
         PartB b(node, use_xor);
         b.Setup();
+        printf("t=%.1f setup done\n", vx::elapsed());
         b.ReadLevel(rejected, cls, /*all_connect=*/big);
+        printf("t=%.1f readlevel done, %zu connect jobs\n", vx::elapsed(), b.connect_jobs.size());
         {
             fp::Pool pool;
             pool.isolate_jobs = true;
             pool.workers = 8;
+            if (getenv("C17_SKIP_CONNECT")) b.connect_jobs.clear();
             pool.run(
                 b.connect_jobs.size(), [&](uint64_t j, fp::Out& out) { b.ConnectJob(b.connect_jobs[j], out, scratch); },
                 [&](uint64_t j) { return "partB connect test xor=" + std::to_string(use_xor) + " " + FaultStr(b.recs, b.connect_jobs[j]); });
@@ -737,7 +740,9 @@ int main(int argc, char** argv)
         }
         if (use_xor) for (auto& r : b.recs) E.sample(strprintf("record %s: file %d bytes [%u,%u) payload %u bytes", r.name, r.file, r.start, r.end, (unsigned)r.orig.size()));
 
+        printf("t=%.1f connect done\n", vx::elapsed());
         // ---- Part A (depth by depth so that a deadline leaves a completed bound)
+        if (getenv("C17_SKIP_A")) continue;
         int maxd = big ? 5 : 3;
         if (const char* e = getenv("C17_DEPTH")) maxd = atoi(e);
         int done = 0;
